@@ -240,7 +240,7 @@ func (f FDeleg) Fold(v structform.ExtVisitor) error {
 
 // SharedFoldOpt is the ONE Folders(...) option value of the process (registered
 // folders of RegT and RDur), as an application keeps it in a package variable.
-var SharedFoldOpt = gotype.Folders(FoldRegT, FoldRDur)
+var SharedFoldOpt = gotype.Folders(FoldRegT, FoldRDur, FoldRegPS)
 
 // FRefObj implements Folder and reports its key and value BY REFERENCE from one
 // scratch buffer that it overwrites after every call (a folder that formats into
@@ -271,6 +271,32 @@ func (f FRefObj) Fold(v structform.ExtVisitor) error {
 	err = v.OnStringRef(scratch)
 	scribble()
 	if err != nil {
+		return err
+	}
+	return v.OnObjectFinished()
+}
+
+// RegPS is "pointer-shaped" (a struct holding exactly one pointer: reflect and
+// interfaces keep such a value in the data word itself) and is folded by a
+// registered folder function: emits {"ps": *P} ({"ps": null} for a nil P).
+type RegPS struct{ P *int }
+
+// FoldRegPS is the registered folder of RegPS.
+func FoldRegPS(t *RegPS, v structform.ExtVisitor) error {
+	if t == nil {
+		return v.OnNil()
+	}
+	if err := v.OnObjectStart(1, structform.AnyType); err != nil {
+		return err
+	}
+	if err := v.OnKey("ps"); err != nil {
+		return err
+	}
+	if t.P == nil {
+		if err := v.OnNil(); err != nil {
+			return err
+		}
+	} else if err := v.OnInt(*t.P); err != nil {
 		return err
 	}
 	return v.OnObjectFinished()
@@ -392,6 +418,7 @@ var Pool = []PoolType{
 	{Name: "FolderPtr", Type: reflect.TypeOf(FolderPtr{}), FoldOnly: true},
 	{Name: "FolderScalar", Type: reflect.TypeOf(FolderScalar{}), FoldOnly: true},
 	{Name: "RegT", Type: reflect.TypeOf(RegT{}), FoldOnly: true},
+	{Name: "RegPS", Type: reflect.TypeOf(RegPS{}), FoldOnly: true},
 	{Name: "FLevel", Type: reflect.TypeOf(FLevel(0)), FoldOnly: true},
 	{Name: "FFlag", Type: reflect.TypeOf(FFlag(false)), FoldOnly: true},
 	{Name: "RDur", Type: reflect.TypeOf(RDur(0)), FoldOnly: true},
